@@ -96,6 +96,43 @@ func (s *sccp) eval(v ssa.Value) (constant.Value, bool) {
 			return nil, false
 		}
 		return res, true
+	case *ssa.Lookup:
+		// table[k] on a package-level map that is filled once from constants in the package initialiser and never
+		// written afterwards (`var binopPriority = map[K]int{…}`): a constant function of the key
+		if x.CommaOk {
+			return nil, false
+		}
+		ld, ok := x.X.(*ssa.UnOp)
+		if !ok || ld.Op != token.MUL {
+			return nil, false
+		}
+		g, ok := ld.X.(*ssa.Global)
+		if !ok {
+			return nil, false
+		}
+		k, ok := s.eval(x.Index)
+		if !ok {
+			return nil, false
+		}
+		tab, ok := constTableOf(g)
+		if !ok {
+			return nil, false
+		}
+		if v, ok := tab[k.ExactString()]; ok {
+			return v, true
+		}
+		// absent key: the zero value of the element type
+		if bt, ok := types.Unalias(x.Type()).Underlying().(*types.Basic); ok {
+			switch {
+			case bt.Info()&types.IsInteger != 0:
+				return constant.MakeInt64(0), true
+			case bt.Info()&types.IsBoolean != 0:
+				return constant.MakeBool(false), true
+			case bt.Info()&types.IsString != 0:
+				return constant.MakeString(""), true
+			}
+		}
+		return nil, false
 	}
 	return nil, false
 }
@@ -160,44 +197,80 @@ var ruleOpdom = &Rule{
 		if f == nil || err != nil {
 			return []Ob{{Key: "OPDOM:slots", Verdict: UNDECIDED, Note: "slot unresolved: Analysis.cgBinopExp / token spellings"}}
 		}
-		// the loads of node.Op
-		isOpLoad := func(v ssa.Value) bool {
-			u, ok := v.(*ssa.UnOp)
-			if !ok || u.Op != token.MUL {
-				return false
-			}
-			fa, ok := u.X.(*ssa.FieldAddr)
-			return ok && fa.X == ssa.Value(f.Params[1]) && fieldName(fa.X.Type(), fa.Field) == "Op"
-		}
-		nLoads := 0
-		for _, b := range f.Blocks {
-			for _, ins := range b.Instrs {
-				if v, ok := ins.(ssa.Value); ok && isOpLoad(v) {
-					nLoads++
+		// the loads of node.Op — in cgBinopExp and in the private functions of the package it hands the node to
+		// (checkBinopConstResult(node, …) after a split)
+		isOpLoadOf := func(node ssa.Value) func(v ssa.Value) bool {
+			return func(v ssa.Value) bool {
+				u, ok := v.(*ssa.UnOp)
+				if !ok || u.Op != token.MUL {
+					return false
 				}
+				fa, ok := u.X.(*ssa.FieldAddr)
+				return ok && fa.X == node && fieldName(fa.X.Type(), fa.Field) == "Op"
 			}
 		}
-		// emission sites
 		type site struct {
 			ins  *ssa.Call
 			name string
 		}
+		emission := func(ins ssa.Instruction) (site, bool) {
+			call, ok := ins.(*ssa.Call)
+			if !ok {
+				return site{}, false
+			}
+			sc := call.Call.StaticCallee()
+			if sc == nil || (sc.Name() != "InsertError" && sc.Name() != "InsertRelateError") || len(call.Call.Args) < 2 {
+				return site{}, false
+			}
+			if x, ok := errTypeConst(call.Call.Args[1]); ok {
+				return site{call, errTypeName(c, x)}, true
+			}
+			return site{}, false
+		}
+		// helpers that receive the node: (callee, index of the node parameter)
+		nodeCallee := func(fn *ssa.Function, node ssa.Value, ins ssa.Instruction) (*ssa.Function, ssa.Value) {
+			call, ok := ins.(*ssa.Call)
+			if !ok {
+				return nil, nil
+			}
+			g := call.Call.StaticCallee()
+			if g == nil || g.Blocks == nil || g == fn || g.Pkg != f.Pkg || g.Object() == nil || g.Object().Exported() {
+				return nil, nil
+			}
+			for i, a := range call.Call.Args {
+				if a == node && i < len(g.Params) {
+					return g, g.Params[i]
+				}
+			}
+			return nil, nil
+		}
+		nLoads := 0
 		var sites []site
-		for _, b := range f.Blocks {
-			for _, ins := range b.Instrs {
-				call, ok := ins.(*ssa.Call)
-				if !ok {
-					continue
-				}
-				sc := call.Call.StaticCallee()
-				if sc == nil || (sc.Name() != "InsertError" && sc.Name() != "InsertRelateError") || len(call.Call.Args) < 2 {
-					continue
-				}
-				if x, ok := errTypeConst(call.Call.Args[1]); ok {
-					sites = append(sites, site{call, errTypeName(c, x)})
+		var static func(fn *ssa.Function, node ssa.Value, depth int)
+		seenStatic := map[*ssa.Function]bool{}
+		static = func(fn *ssa.Function, node ssa.Value, depth int) {
+			if seenStatic[fn] || depth > 2 {
+				return
+			}
+			seenStatic[fn] = true
+			isOp := isOpLoadOf(node)
+			for _, b := range fn.Blocks {
+				for _, ins := range b.Instrs {
+					if v, ok := ins.(ssa.Value); ok && isOp(v) {
+						nLoads++
+					}
+					if st, ok := emission(ins); ok {
+						if _, documented := opDomains[st.name]; documented || depth == 0 {
+							sites = append(sites, st)
+						}
+					}
+					if g, gp := nodeCallee(fn, node, ins); g != nil {
+						static(g, gp, depth+1)
+					}
 				}
 			}
 		}
+		static(f, f.Params[1], 0)
 		reach := map[string]map[string]bool{}
 		var kinds []int64
 		for k := range sp {
@@ -206,21 +279,40 @@ var ruleOpdom = &Rule{
 		sort.Slice(kinds, func(i, j int) bool { return kinds[i] < kinds[j] })
 		for _, k := range kinds {
 			kk := k
-			s := &sccp{f: f, assume: func(v ssa.Value) (constant.Value, bool) {
-				if isOpLoad(v) {
-					return constant.MakeInt64(kk), true
+			var walk func(fn *ssa.Function, node ssa.Value, depth int)
+			walk = func(fn *ssa.Function, node ssa.Value, depth int) {
+				if depth > 2 {
+					return
 				}
-				return nil, false
-			}}
-			blocks := s.run()
-			for _, st := range sites {
-				if blocks[st.ins.Block().Index] {
-					if reach[st.name] == nil {
-						reach[st.name] = map[string]bool{}
+				isOp := isOpLoadOf(node)
+				s := &sccp{f: fn, assume: func(v ssa.Value) (constant.Value, bool) {
+					if isOp(v) {
+						return constant.MakeInt64(kk), true
 					}
-					reach[st.name][sp[k]] = true
+					return nil, false
+				}}
+				blocks := s.run()
+				for _, b := range fn.Blocks {
+					if !blocks[b.Index] {
+						continue
+					}
+					for _, ins := range b.Instrs {
+						if st, ok := emission(ins); ok {
+							// checks of other families that live in helpers of their own (operand types, …) are not this rule's
+							if _, documented := opDomains[st.name]; documented || depth == 0 {
+								if reach[st.name] == nil {
+									reach[st.name] = map[string]bool{}
+								}
+								reach[st.name][sp[kk]] = true
+							}
+						}
+						if g, gp := nodeCallee(fn, node, ins); g != nil {
+							walk(g, gp, depth+1)
+						}
+					}
 				}
 			}
+			walk(f, f.Params[1], 0)
 		}
 		var names []string
 		for n := range opDomains {
@@ -426,4 +518,96 @@ var ruleAcc = &Rule{
 		obs = append(obs, floor("ACC/loop-flag", "boolean flags carried around a loop and read after it", n, 10))
 		return obs
 	},
+}
+
+
+// constTableOf: the package-level map g is initialised by one composite literal of constant keys and values (MakeMap +
+// MapUpdates + one Store in the package initialiser) and nothing else in the package stores into it or updates it
+var constTableCache = map[*ssa.Global]map[string]constant.Value{}
+
+func constTableOf(g *ssa.Global) (map[string]constant.Value, bool) {
+	if t, ok := constTableCache[g]; ok {
+		return t, t != nil
+	}
+	constTableCache[g] = nil
+	pkg := g.Pkg
+	if pkg == nil {
+		return nil, false
+	}
+	var mk *ssa.MakeMap
+	stores := 0
+	for _, mem := range pkg.Members {
+		fn, ok := mem.(*ssa.Function)
+		if !ok {
+			continue
+		}
+		fns := append([]*ssa.Function{fn}, fn.AnonFuncs...)
+		for _, f := range fns {
+			for _, b := range f.Blocks {
+				for _, ins := range b.Instrs {
+					switch x := ins.(type) {
+					case *ssa.Store:
+						if x.Addr == ssa.Value(g) {
+							stores++
+							mk, _ = x.Val.(*ssa.MakeMap)
+							if f.Name() != "init" {
+								return nil, false
+							}
+						}
+					case *ssa.MapUpdate:
+						if ld, ok := x.Map.(*ssa.UnOp); ok && ld.X == ssa.Value(g) {
+							return nil, false // updated through the variable somewhere
+						}
+					}
+				}
+			}
+		}
+	}
+	// methods of the package's types may also write it
+	for _, mem := range pkg.Members {
+		if t, ok := mem.(*ssa.Type); ok {
+			for _, ms := range []*types.MethodSet{pkg.Prog.MethodSets.MethodSet(t.Type()), pkg.Prog.MethodSets.MethodSet(types.NewPointer(t.Type()))} {
+				for i := 0; i < ms.Len(); i++ {
+					f := pkg.Prog.MethodValue(ms.At(i))
+					if f == nil {
+						continue
+					}
+					for _, b := range f.Blocks {
+						for _, ins := range b.Instrs {
+							switch x := ins.(type) {
+							case *ssa.Store:
+								if x.Addr == ssa.Value(g) {
+									return nil, false
+								}
+							case *ssa.MapUpdate:
+								if ld, ok := x.Map.(*ssa.UnOp); ok && ld.X == ssa.Value(g) {
+									return nil, false
+								}
+							}
+						}
+					}
+				}
+			}
+		}
+	}
+	if stores != 1 || mk == nil || mk.Referrers() == nil {
+		return nil, false
+	}
+	tab := map[string]constant.Value{}
+	for _, r := range *mk.Referrers() {
+		switch x := r.(type) {
+		case *ssa.MapUpdate:
+			k, ok1 := x.Key.(*ssa.Const)
+			v, ok2 := x.Value.(*ssa.Const)
+			if !ok1 || !ok2 || k.Value == nil || v.Value == nil {
+				return nil, false
+			}
+			tab[k.Value.ExactString()] = v.Value
+		case *ssa.Store, *ssa.DebugRef:
+		default:
+			return nil, false
+		}
+	}
+	constTableCache[g] = tab
+	return tab, true
 }
